@@ -1,4 +1,4 @@
-import SimbodyProofs.C42_break
+import SimbodyProofs.C42_term
 
 /-!
 # C42 — MultibodyGraphMaker always produces a valid spanning tree (property theorems)
@@ -6,7 +6,7 @@ import SimbodyProofs.C42_break
 Model: `SimbodyModel/C42.lean` (`generate` = `MultibodyGraphMaker::generateGraph`).
 Specification: `SimbodyProofs/C42_defs.lean` (`Valid`, `WF`).  Helper files: `C42_lemmas`, `C42_inv` (structural
 invariant, `addMobilizerForJoint`), `C42_grow`/`C42_grow2` (`growTree`), `C42_outer` (`chooseNewBaseBody`,
-`connectBodyToGround`, outer loop, first loop), `C42_break` (`breakLoops`).
+`connectBodyToGround`, outer loop, first loop), `C42_break` (`breakLoops`), `C42_term` (fuel is never exhausted).
 -/
 namespace C42
 
@@ -90,6 +90,25 @@ theorem ok_implies_valid {g : Input} {s : St} (hW : WF g) (h : generate g = .ok 
       refine valid_of_InvC (by rw [hj]; exact hC) ?_
       obtain ⟨e, he, hp⟩ := hJ2
       exact ⟨e, by rw [hj]; exact he, hp⟩
+
+/-- **Termination.**  The fuel that replaces the C++ `while(true)` / `for(;;)` loops in the model is never
+exhausted on a legal input: fuel exhaustion is unreachable, so `generate` returns exactly what the fuel-free
+loops compute (a graph, or one of the three errors the C++ throws). -/
+theorem terminates {g : Input} (hW : WF g) : generate g ≠ .error .fuel := generate_nofuel hW
+
+/-- **The property in one statement**: on any legal input the graph maker either reports one of its three errors
+or produces a valid spanning tree. -/
+theorem error_or_valid {g : Input} (hW : WF g) :
+    generate g = .error .masslessFree ∨ generate g = .error .masslessNotInternal ∨
+    generate g = .error .terminalMassless ∨ ∃ s, generate g = .ok s ∧ Valid g s := by
+  cases h : generate g with
+  | ok s => exact Or.inr (Or.inr (Or.inr ⟨s, rfl, ok_implies_valid hW h⟩))
+  | error e =>
+    cases e with
+    | masslessFree => exact Or.inl rfl
+    | masslessNotInternal => exact Or.inr (Or.inl rfl)
+    | terminalMassless => exact Or.inr (Or.inr (Or.inl rfl))
+    | fuel => exact absurd h (terminates hW)
 
 /-! ### the clauses of the property as corollaries -/
 
